@@ -158,12 +158,14 @@ RECIPES = {
     # other page boundaries for text / bool / categorical), v1 and v2
     "pages_v1":   dict(n=60, offsets=[0, 30], v=1, page=64, stats=True, an=("Int64", (30, 45))),
     "pages_v2":   dict(n=60, offsets=[0, 30], v=2, page=64, stats=True, an=None, with_n=False),
+    # MAX_PAGE_SIZE=16: one row per page for the 8-byte columns, 3 / 2 pages for the categorical column
+    "pages_v1_tiny": dict(n=48, offsets=[0, 30], v=1, page=16, stats="auto", an=("str", (30, 40))),
 }
 
 QUICK = ["flat1", "flat3", "flat4v2", "flat2v2", "hive0", "hive_pi", "hive_ps_pb", "hive_pt", "drill_pi_ps",
          "idx_range", "idx_dt", "idx_int", "empty0", "one_row"]
 TZ = ["tz_data", "tz_idx_london", "tz_idx_utc_hive"]        # not part of QUICK: used by the modules that ask for them
-PAGES = ["pages_v1", "pages_v2"]                           # not part of QUICK either (c13 asks for them)
+PAGES = ["pages_v1", "pages_v2", "pages_v1_tiny"]                           # not part of QUICK either (c13 asks for them)
 
 FOREIGN = ["nation.plain.parquet", "nation.dict.parquet", "nation.impala.parquet", "snappy-nation.impala.parquet",
            "gzip-nation.impala.parquet", "datapage_v2.snappy.parquet", "decimals.parquet", "empty.parquet",
